@@ -136,7 +136,8 @@ class Recorder:
             if h in self.nontrivial_hashes:
                 return
             self.nontrivial_hashes.add(h)
-        if len(self.samples) < 3:
+        self._nt_seen = getattr(self, '_nt_seen', 0) + 1
+        if self._nt_seen in (1, 12, 60):        # not only the generator's first (simplest) examples
             s = {'part': self.part, 'case': compact(self._case)}
             if note is not None:
                 s['note'] = compact(note)
